@@ -196,6 +196,11 @@ func traceMultiply(rec *recorder, p point, k *big.Int, full bool) traceSig {
 
 	rec.reset(full)
 
+	if verifrt.GoLive.Load() != 0 {
+		traceUndecidable = "the library keeps goroutines running between calls (workers): the order in which their field operations reach the recorder is not owned by any schedule"
+		return traceSig{}
+	}
+
 	if !scheduledTraces {
 		g0 := verifrt.GoCount.Load()
 		verifrt.Hook = rec.hook
@@ -217,6 +222,11 @@ func traceMultiply(rec *recorder, p point, k *big.Int, full bool) traceSig {
 
 	if noPoints == nil {
 		noPoints = make([]bool, len(verifrt.Names))
+	}
+
+	if verifrt.GoLive.Load() != 0 {
+		traceUndecidable = "the library keeps goroutines running between calls (workers): the order in which their field operations reach the recorder is not owned by any schedule"
+		return traceSig{}
 	}
 
 	sched.Observer = rec.hook
@@ -381,6 +391,12 @@ func C19(r *ev.Report) {
 
 	for _, p := range pts {
 		ref0 := traceMultiply(rec, p, big.NewInt(0), false)
+
+		if traceUndecidable != "" {
+			r.Incomplete(traceUndecidable)
+			return
+		}
+
 		r.Bound("trace_length_field_ops["+p.name+"]", ref0.fieldN)
 		r.Bound("trace_scalar_pkg_entries["+p.name+"]", rec.scalarN)
 		r.Bound("trace_root_pkg_entries["+p.name+"]", rec.rootN)
